@@ -25,20 +25,29 @@ impl PublicKey {
 //@fn PublicKey::from_bytes_impl
 //@fn PublicKey::from_bytes
 //@fn PublicKey::from_hex_impl
+//@wrapper PublicKey::from_hex @ src/keypair/public_key.rs = PublicKey::from_hex_impl
 //@fn PublicKey::from_encoded_point
 //@fn PublicKey::to_bytes_impl
+//@wrapper PublicKey::to_bytes @ src/keypair/public_key.rs = PublicKey::to_bytes_impl
 //@fn PublicKey::to_compressed_impl
+//@wrapper PublicKey::to_compressed @ src/keypair/public_key.rs = PublicKey::to_compressed_impl
 //@fn PublicKey::to_decompressed_impl
+//@wrapper PublicKey::to_decompressed @ src/keypair/public_key.rs = PublicKey::to_decompressed_impl
 //@fn PublicKey::from_private_key_impl
+//@wrapper PublicKey::from_private_key @ src/keypair/public_key.rs = PublicKey::from_private_key_impl
 }
 impl PrivateKey {
 //@fn PrivateKey::get_point
 //@fn PrivateKey::from_bytes_impl
+//@wrapper PrivateKey::from_bytes @ src/keypair/private_key.rs = PrivateKey::from_bytes_impl
 //@fn PrivateKey::to_bytes
 //@fn PrivateKey::compress_public_key
 //@fn PrivateKey::to_public_key_impl
+//@wrapper PrivateKey::to_public_key @ src/keypair/private_key.rs = PrivateKey::to_public_key_impl
 //@fn PrivateKey::from_hex_impl
+//@wrapper PrivateKey::from_hex @ src/keypair/private_key.rs = PrivateKey::from_hex_impl
 //@fn PrivateKey::from_wif_impl
+//@wrapper PrivateKey::from_wif @ src/keypair/private_key.rs = PrivateKey::from_wif_impl
 }
 //@struct Hash @ src/hash/mod.rs clone
 impl Hash {
@@ -58,12 +67,17 @@ impl PublicKey { #[verifier::external_body] pub fn to_hex_impl(&self) -> (r: Res
 //@struct P2PKHAddress @ src/address/mod.rs clone partialeqspec
 impl P2PKHAddress {
 //@fn P2PKHAddress::from_pubkey_hash_impl
+//@wrapper P2PKHAddress::from_pubkey_hash @ src/address/mod.rs = P2PKHAddress::from_pubkey_hash_impl
 //@fn P2PKHAddress::from_pubkey_impl
+//@wrapper P2PKHAddress::from_pubkey @ src/address/mod.rs = P2PKHAddress::from_pubkey_impl
 //@fn P2PKHAddress::set_chain_params_impl
 //@fn P2PKHAddress::to_string_impl
+//@wrapper P2PKHAddress::to_string @ src/address/mod.rs = P2PKHAddress::to_string_impl
 //@fn P2PKHAddress::from_string_impl
+//@wrapper P2PKHAddress::from_string @ src/address/mod.rs = P2PKHAddress::from_string_impl
 //@fn P2PKHAddress::to_pubkey_hash
 //@fn P2PKHAddress::to_unlocking_script_impl
+//@wrapper P2PKHAddress::get_unlocking_script @ src/address/mod.rs = P2PKHAddress::to_unlocking_script_impl
 }
 } // verus!
 fn main() {}
